@@ -242,13 +242,26 @@ Definition agrees (o : outcome) : bool := match o with Agree => true | _ => fals
 
 (* ---- static well-formedness: every identifier is declared, every select chain is well typed, every instance
         refers to a module of the file and to ports of that module ---- *)
+(* a CONSTANT index must lie inside the declared range of what it indexes (unpacked dimension, packed array, vector):
+   an out-of-range constant index is legal text for a simulator (read X / write dropped) but never what pymtl3 meant *)
+Definition lit_val (e : expr) : option Z :=
+  match e with ELit w v => Some (v mod 2 ^ w) | ENum v => Some v | _ => None end.
+Definition const_idx_in_range (te : tenv) (a i : expr) : bool :=
+  match lit_val i, type_of te a with
+  | Some v, Some (_, d :: _) => inb v d
+  | Some v, Some (PArr n _, []) => inb v n
+  | Some v, Some (t, []) => inb v (pwidth t)
+  | _, _ => true
+  end.
+
 Fixpoint expr_ok (te : tenv) (e : expr) {struct e} : bool :=
   match e with
   | ELit w _ => 0 <? w
   | ENum _ => true
   | EId x => match PM.find x te with Some _ => true | None => false end
   | EMember a _ => expr_ok te a && match type_of te e with Some _ => true | None => false end
-  | EIndex a i => expr_ok te a && expr_ok te i && match type_of te e with Some _ => true | None => false end
+  | EIndex a i => expr_ok te a && expr_ok te i && match type_of te e with Some _ => true | None => false end &&
+                  const_idx_in_range te a i
   | ERange a hi lo => expr_ok te a && (0 <=? lo) && (lo <=? hi) && match type_of te a with Some (t, []) => hi <? pwidth t | _ => false end
   | EPlusRange a b w => expr_ok te a && expr_ok te b && (0 <? w) && match type_of te a with Some (_, []) => true | _ => false end
   | EConcat es => (fix all (l : list expr) : bool := match l with [] => true | x :: r => expr_ok te x && all r end) es
